@@ -98,14 +98,16 @@ def run(ctx):
 def _run(ctx, base):
     ops = [o for o in B.op_requests() if o not in B.SKIP]
     guards = list(B.guard_requests())
+    nofsync = list(B.nofsync_requests())
     if ctx.quick:
-        cases = [("warm", (False, False), o) for o in ops + guards]
+        cases = [("warm", (False, False), o) for o in ops + guards + nofsync]
         cases += [("residue", (False, False), o) for o in ("put_over_stale", "putcoll_replace", "delete_coll", "move_over_same", "delete_item")]
         cases += [("cold", (True, True), o) for o in ("put_new", "putcoll_new", "move_over_cross", "home_predef", "mkcalendar",
                                                       "g_put_otheruid", "g_move_noover_same")]
     else:
         cases = [(sh, lay, o) for sh in C.SHAPES for lay in B.LAYOUTS for o in ops]
         cases += [("warm", (False, False), o) for o in guards] + [("cold", (True, True), o) for o in guards]
+        cases += [(sh, (False, False), o) for sh in ("warm", "residue") for o in nofsync]
     ctx.log("baseline: %d traced requests" % len(cases))
     with C.pool() as p:
         recs = C.baseline(ctx, base, cases, p)
@@ -157,6 +159,22 @@ def _run(ctx, base):
             un = rec["un"]
             if un.get("error"):
                 continue
+            if un.get("monitor_only"):
+                # no model request (fsync switched off): every boundary, killed and ENOSPC / EIO, judged by the monitor alone
+                al = allowed_states(un, B.all_ops()[o])
+                for n_, (k, name, ordinal, frag, label) in enumerate(B.injection_points(un, every_syscall=True)):
+                    stk = un["steps"][k][0][0]
+                    for mode, err in [("crash", None), ("fault", "ENOSPC" if n_ % 2 else "EIO")]:
+                        if ctx.quick and mode == "fault" and stk not in ("Write", "Rename", "Exchange"):
+                            continue
+                        tag = "%s-%d%d-%s-m%d-%s%s" % (sh, lay[0], lay[1], o, len(jobs), mode, err or "")
+                        jobs.append(dict(base=base, shape=sh, lay=lay, opname=o, tag=tag, inject=(mode, err, name, ordinal),
+                                         pre_abs=un["pre_abs"], post_abs=un["post_abs"], list_before=un["list_before"],
+                                         list_after=un["list_after"], allowed=al, names=un["names"], contents=un["contents"],
+                                         base_status=un["status"]))
+                        mjobs.append(None)
+                        meta.append(dict(case=(o, sh, tuple(lay)), k=-2, label=label, mode=mode, err=err, un=un))
+                continue
             if rec["problems"]:
                 # the model no longer matches the server: search for a concrete failing boundary with the monitor alone
                 for (k, name, ordinal, frag, label) in B.injection_points(un, every_syscall=True):
@@ -179,6 +197,9 @@ def _run(ctx, base):
                 modes = [("crash", None)]
                 if ctx.quick:
                     modes.append(("fault", ERRNOS[(i + len(o)) % 3]))
+                    # the steps that change the visible store: a refusal (EACCES) too -- PermissionError has handlers of its own
+                    if data_step(un["steps"][k][0]) and ("fault", "EACCES") not in modes:
+                        modes.append(("fault", "EACCES"))
                 else:
                     modes += [("fault", e) for e in ERRNOS]
                 if un["steps"][k][0][0] in ("Rename", "Exchange") and data_step(un["steps"][k][0]):
